@@ -40,7 +40,8 @@ def call(s, name, I, args):
             n = s.concretize(n) if not isinstance(n, int) else n
             if not isinstance(n, int): raise EncodingError('symbolic memcpy length')
             if n == 0: return None
-            if not (isinstance(d.off, int) and isinstance(sr.off, int)): raise EncodingError('symbolic memcpy address')
+            if not (isinstance(d.off, int) and isinstance(sr.off, int)):
+                return sym_memcpy(s, d, sr, n)
             s._chk(sr.r, sr.off, n, 1, 'memcpy read', False); s._chk(d.r, d.off, n, 1, 'memcpy write', True)
             # gather source cells (split at range ends)
             items = []; o = sr.off; end = sr.off + n
@@ -92,10 +93,10 @@ def call(s, name, I, args):
         if m:
             w = iw(T[0]); k = m.group(1)
             pred = {'smax': 'sgt', 'smin': 'slt', 'umax': 'ugt', 'umin': 'ult'}[k]
-            return vmap(lambda x, y: s.select1(s.icmp(pred, x, y, w), x, y), A[0], A[1])
+            return vmap(lambda x, y: s.select1(s.icmp(pred, x, y, w), x, y, w), A[0], A[1])
         if name.startswith('llvm.abs.'):
             w = iw(T[0])
-            return vmap(lambda x: s.select1(s.icmp('slt', x, 0, w), s.binop('sub', 0, x, w), x), A[0])
+            return vmap(lambda x: s.select1(s.icmp('slt', x, 0, w), s.binop('sub', 0, x, w), x, w), A[0])
         if name.startswith('llvm.masked.store'):
             v, p, al, m = A
             ety = T[0].el; es = sizeof(ety)
@@ -139,7 +140,7 @@ def call(s, name, I, args):
                 return acc
             if k in ('smax', 'smin', 'umax', 'umin'):
                 pred = {'smax': 'sgt', 'smin': 'slt', 'umax': 'ugt', 'umin': 'ult'}[k]; acc = v[0]
-                for x in v[1:]: acc = s.select1(s.icmp(pred, acc, x, w), acc, x)
+                for x in v[1:]: acc = s.select1(s.icmp(pred, acc, x, w), acc, x, w)
                 return acc
             if k in ('fadd', 'fmul'):
                 acc = A[0]
@@ -219,6 +220,36 @@ def call(s, name, I, args):
         c = s.icmp('ne', c, 0, iw(T[0]))
         s.assume(c if not isinstance(c, int) else c); return None
     raise EncodingError('call to unknown external ' + name)
+
+
+def sym_memcpy(s, d, sr, n):
+    """memcpy with a symbolic source and/or destination offset: element-granular conditional copy over the feasible offsets"""
+    from .sym import slice_val
+    dvals = s.sym_offsets(d.r, d.off, n, 1, 'memcpy write', True) if not isinstance(d.off, int) else [d.off]
+    svals = s.sym_offsets(sr.r, sr.off, n, 1, 'memcpy read', False) if not isinstance(sr.off, int) else [sr.off]
+    if isinstance(d.off, int): s._chk(d.r, d.off, n, 1, 'memcpy write', True)
+    if isinstance(sr.off, int): s._chk(sr.r, sr.off, n, 1, 'memcpy read', False)
+    # granularity: the cell size found at the first source offset (all our buffers are homogeneous)
+    c0 = s.find_cell(sr.r, svals[0])
+    g = c0[1][1] if c0 else 1
+    if n % g: g = 1
+    # snapshot of the source values per feasible source offset
+    def src_val(k):
+        res = None
+        for sv in reversed(svals):
+            v = s.load_raw(sr.r, sv + k, g)
+            res = v if res is None else s.ite(bv(sr.off, 64) == sv, v, res, 8 * g)
+        return res
+    vals = [src_val(k) for k in range(0, n, g)]
+    for dv in dvals:
+        for i, k in enumerate(range(0, n, g)):
+            if len(dvals) == 1: s.store_raw(d.r, dv + k, vals[i], g)
+            else:
+                old = s.load_raw(d.r, dv + k, g)
+                if isinstance(old, Undef): raise EncodingError('conditional memcpy into uninitialised memory')
+                s.store_raw(d.r, dv + k, s.ite(bv(d.off, 64) == dv, vals[i], old, 8 * g), g)
+        d.r.wlog.append((dv, n))
+    return None
 
 
 def fw(t): return t.el.w if isinstance(t, VecTy) else t.w
